@@ -53,7 +53,57 @@ def corpus():
                 [pg.Impl(1, ("Bar", (pg.adt("Foo", pg.var(0)),)))], "corpus-F11")
     out.append((p, [("atom", ("Bar", (pg.adt("Foo", pg.adt("Baz")),))), ("atom", ("Bar", (pg.adt("Qux"),))),
                     ("exists", (1,), ("atom", ("Bar", (pg.adt("Foo", pg.var(1)),))))]))
+    # a trait / type that only occurs in a hypothesis of the goal
+    p = pg.Prog([pg.Adt("S"), pg.Adt("Q")], [pg.Trait("Parent"), pg.Trait("Child")], [pg.Impl(0, ("Parent", (pg.adt("S"),)))], "corpus-hyp-only")
+    out.append((p, [("forall", (1,), ("if", (((), ("Child", (pg.var(1),)), ()),), ("atom", ("Parent", (pg.var(1),))))),
+                    ("if", (((), ("Child", (pg.adt("Q"),)), ()),), ("atom", ("Parent", (pg.adt("S"),))))]))
     return out
+
+
+def shape_auto_neg(rng):
+    """auto trait, generic structs with negative (or conditional positive) impls for SOME instances,
+    wrapper structs whose fields lead to them; goal sequences that ask the auto trait about an
+    unsuppressed type before the suppressed one (in one sequence, or inside one goal through a wrapper)"""
+    cs = ["A", "B", "C"]
+    adts = [pg.Adt(c) for c in cs]
+    foo_field = rng.random() < 0.5
+    adts.append(pg.Adt("Foo", 1, "struct", [[pg.var(0)] if foo_field else []]))
+    adts.append(pg.Adt("Wrapper", 1, "struct", [[pg.var(0)]]))
+    adts.append(pg.Adt("Pair", 2, "struct", [[pg.var(0), pg.var(1)]]))
+    two = rng.random() < 0.4
+    traits = [pg.Trait("Send", 0, ("auto",))] + ([pg.Trait("Sync", 0, ("auto",))] if two else [])
+    impls = []
+    neg_at = rng.sample(cs, rng.choice([1, 1, 2]))
+    for c in neg_at:
+        impls.append(pg.Impl(0, ("Send", (pg.adt("Foo", pg.adt(c)),)), [], positive=False))
+    if rng.random() < 0.3:
+        impls.append(pg.Impl(0, ("Send", (pg.adt("Foo", pg.adt("Wrapper", pg.adt(rng.choice(cs)))),)), [], positive=False))
+    if two:
+        if rng.random() < 0.5:
+            impls.append(pg.Impl(0, ("Sync", (pg.adt("Wrapper", pg.adt(rng.choice(cs))),)), [], positive=False))
+        else:
+            impls.append(pg.Impl(1, ("Sync", (pg.adt("Pair", pg.var(0), pg.adt("A")),)), [("Sync", (pg.var(0),))], positive=True))
+    rng.shuffle(impls)
+    p = pg.Prog(adts, traits, impls, "auto-neg")
+    if rng.random() < 0.5:
+        p = pg.permute(p, rng)
+    other = [c for c in cs if c not in neg_at] or cs
+
+    def at(tr, t):
+        return ("atom", (tr, (t,)))
+    plain = pg.adt(rng.choice(other))
+    supp = pg.adt("Foo", pg.adt(rng.choice(other)))          # suppressed only by an impl for ANOTHER instance
+    seqs = [
+        [at("Send", plain), at("Send", supp)],
+        [at("Send", pg.adt("Wrapper", supp))],
+        [at("Send", pg.adt("Pair", plain, supp))],
+        [at("Send", pg.adt("Wrapper", plain)), at("Send", pg.adt("Foo", pg.adt(neg_at[0]))), at("Send", supp)],
+        [at("Send", supp)],
+        [("exists", (1,), at("Send", pg.adt("Wrapper", pg.var(1)))), at("Send", pg.adt("Wrapper", pg.adt("Wrapper", supp)))],
+    ]
+    if two:
+        seqs.append([at("Sync", plain), at("Sync", pg.adt("Wrapper", plain)), at("Sync", pg.adt("Pair", supp, pg.adt("A"))), at("Send", supp)])
+    return p, seqs
 
 
 # ---------------------------------------------------------------------------------------
@@ -183,6 +233,13 @@ def build_cases(ctx, rng):
         sv = rng.choice([pg.SLG, pg.REC])
         mode = "History" if rng.random() < 0.3 else "Fresh"
         cases.append(Case("frag", p, pg.to_text(p), goals, [pg.goal_text(g) for g in goals], sv, mode))
+    for _ in range(ctx.n(4, 40)):
+        p, seqs = shape_auto_neg(rng)
+        text = pg.to_text(p)
+        for goals in rng.sample(seqs, min(len(seqs), ctx.n(4, 6))):
+            sv = rng.choice([pg.SLG, pg.REC])
+            mode = rng.choice(["History", "Fresh"])
+            cases.append(Case("frag", p, text, goals, [pg.goal_text(g) for g in goals], sv, mode))
     from checks import c07
     for _ in range(ctx.n(10, 120)):
         p = ag.gen_program(rng)
